@@ -286,6 +286,59 @@ def frame_of(tb_text):
     return last
 
 
+def internal_consistency(c, i, x):
+    """Oracles that need no reference interpreter (corpus files of versions nobody can run any more):
+    tiling, the two operand decoders inside xdis agree, jump targets are instruction starts and are labels."""
+    v = c.v
+    tag = "co%d" % i
+    if "skipped" in x:
+        return
+    if "instrs_err" in x:
+        c.fail("tiling", "iteration-raised|%s|%s" % (x["instrs_err"].split(":")[0], frame_of(x.get("instrs_tb", ""))),
+               "%s iterating instructions raised %s" % (tag, x["instrs_err"]))
+        return
+    xi = x["instrs"]
+    n = x["codelen"]
+    pos = 0
+    for ins in xi:
+        if ins["o"] != pos:
+            c.fail("tiling", "gap", "%s instruction at offset %d, expected %d" % (tag, ins["o"], pos))
+            return
+        pos += 2 if v >= (3, 6) else (3 if ins["ha"] else 1)
+    if pos != n:
+        c.fail("tiling", "end", "%s stream ends at %d, len(co_code) = %d" % (tag, pos, n))
+    if "unpacked_err" in x:
+        c.fail("decode", "unpack-raised", "%s operand unpacker raised %s" % (tag, x["unpacked_err"]))
+    elif "unpacked" in x:
+        u = x["unpacked"]
+        if [a[0] for a in u] != [b["o"] for b in xi]:
+            c.fail("decode", "two-decoders|offsets", "%s the instruction iterator and the operand unpacker tile differently" % tag)
+        else:
+            for (o, op, a), ins in zip(u, xi):
+                if op != ins["op"] or (a is not None and ins["a"] is not None and a != ins["a"]):
+                    c.fail("decode", "two-decoders|operand", "%s at %d: instruction iterator says %s %s, operand unpacker says opcode %d operand %s" % (
+                        tag, o, ins["n"], ins["a"], op, a))
+                    break
+    starts = set(b["o"] for b in xi) | {n}
+    labels = set(x.get("labels", []))
+    targets = set()
+    for ins in xi:
+        if ins["k"] in ("jrel", "jabs") and isinstance(ins["v"], int):
+            targets.add(ins["v"])
+            if ins["v"] not in starts:
+                c.fail("jump", "target-not-instruction-start", "%s %s at %d -> %d is not an instruction start" % (tag, ins["n"], ins["o"], ins["v"]))
+                break
+    if "labels" in x and targets != labels:
+        c.fail("labels", "labels-vs-jump-operands", "%s findlabels %s but jump operands point to %s" % (
+            tag, sorted(labels)[:10], sorted(targets)[:10]))
+    exc_t = set(e[2] for e in (x.get("exc") or []))
+    for ins in xi:
+        if ins["j"] != (ins["o"] in labels or ins["o"] in exc_t):
+            c.fail("jump", "is_jump_target-vs-labels", "%s at %d %s: is_jump_target=%s but offset %s the label set" % (
+                tag, ins["o"], ins["n"], ins["j"], "is in" if ins["o"] in labels else "is not in"))
+            break
+
+
 def compare_program(version, ref, x):
     """ref: worker compile result; x: rw.x_dump_file result. -> Cmp"""
     c = Cmp(version)
